@@ -100,9 +100,14 @@ func respTree(minor int, op int64, payload wire.Node) wire.Node {
 // respTreeStatus: a response item may carry a payload whenever it is not a failure (Success, Pending, Undone).
 func respTreeStatus(minor int, op int64, status int64, payload wire.Node) wire.Node {
 	payload.Tag = kmip.TagResponsePayload
+	item := st(kmip.TagBatchItem, enum(kmip.TagOperation, op), enum(kmip.TagResultStatus, status), payload)
+	if core.Hash64(payload.String())%2 == 1 {
+		// the optional items that may stand between the status and the payload
+		item = st(kmip.TagBatchItem, enum(kmip.TagOperation, op), wire.Node{Tag: kmip.TagUniqueBatchItemID, Type: wire.ByteString, Bytes: []byte{1, 2, 3}}, enum(kmip.TagResultStatus, status),
+			wire.Node{Tag: kmip.TagAsynchronousCorrelationValue, Type: wire.ByteString, Bytes: []byte("async-correlation")}, payload)
+	}
 	return st(kmip.TagResponseMessage,
-		st(kmip.TagResponseHeader, pv(minor), wire.Node{Tag: kmip.TagTimeStamp, Type: wire.DateTime, Int: 1700000000}, integer(kmip.TagBatchCount, 1)),
-		st(kmip.TagBatchItem, enum(kmip.TagOperation, op), enum(kmip.TagResultStatus, status), payload))
+		st(kmip.TagResponseHeader, pv(minor), wire.Node{Tag: kmip.TagTimeStamp, Type: wire.DateTime, Int: 1700000000}, integer(kmip.TagBatchCount, 1)), item)
 }
 
 type decoded struct {
@@ -194,6 +199,14 @@ func genericPayload(g *gen.G, registeredTags bool) wire.Node {
 			}
 		}
 		n.Children = append(n.Children, cn)
+	}
+	if g.R.P(1, 6) {
+		// free-form vendor content nested far deeper than any message of the specification
+		deep := text(0x540010, "deep")
+		for d, k := 0, 8+g.R.Intn(60); d < k; d++ {
+			deep = st(0x540020+d%40, deep)
+		}
+		n.Children = append(n.Children, deep)
 	}
 	return n
 }
